@@ -2140,6 +2140,9 @@ func (c *BytecodeCompiler) compileContinueExpressionNode(node *ast.ContinueExpre
 	if finallyCount <= 0 {
 		c.leaveScopeOnContinue(location.StartPos.Line, labelName)
 
+		if c.additionalAbortChecks {
+			c.emit(location.StartPos.Line, bytecode.CHECK_ABORT)
+		}
 		continueJumpOffset := c.emitJump(location.StartPos.Line, bytecode.LOOP)
 		c.addLoopJumpTo(loop, bytecodeContinueLoopJump, continueJumpOffset)
 		return
@@ -2148,6 +2151,9 @@ func (c *BytecodeCompiler) compileContinueExpressionNode(node *ast.ContinueExpre
 	// the finally blocks reuse the slots of the locals that go out of scope here
 	c.leaveScopeOnContinue(location.StartPos.Line, labelName)
 
+	if c.additionalAbortChecks {
+		c.emit(location.StartPos.Line, bytecode.CHECK_ABORT)
+	}
 	jumpOffsetId := c.emitLoadValue(value.Undefined, location)
 	c.offsetValueIds = append(c.offsetValueIds, jumpOffsetId)
 	c.addLoopJump(labelName, bytecodeContinueFinallyLoopJump, jumpOffsetId, location)
